@@ -191,3 +191,12 @@ package runner
 //@     ghost gExecErr = result
 //@   callsite after
 //@     requires #C06.after-only-after-success calls(execute) == 1 && gExecErr == nil && calls(after) == 0
+
+//@ func NewExecutionContext
+//@   nomod
+//@   ensures result != nil && fresh(result)
+//@ func DefaultContext
+//@   nomod
+//@   ensures result != nil && result.Env != nil && result.Variables != nil
+//@ func WithQuote
+//@   nomod
